@@ -426,3 +426,46 @@ def m_guard_rel(s, av):
 def m_guard_abort(s, av): return None
 @model('__cxa_atexit')
 def m_atexit(s, av): return 0
+
+# ---------------------------------------------------------------- RTTI: dynamic_cast
+def _ti_bases(P, name):
+    """[(base typeinfo name, offset, is_virtual, is_public)] read from the IR initialiser of a type_info object (Itanium ABI)"""
+    g = P.m.globals.get(name)
+    if g is None or g.init is None or g.init.kind != 'agg': return []
+    els = g.init.els
+    def gname(e):
+        while e.kind in ('cast', 'gep'): e = e.val if e.kind == 'cast' else e.base
+        return e.name if e.kind == 'global' else None
+    kind = gname(els[0]) or ''
+    if '__si_class_type_info' in kind: return [(gname(els[2]), 0, False, True)]
+    if '__vmi_class_type_info' in kind:
+        n = P.const(els[3]); out = []
+        for i in range(n):
+            b = gname(els[4 + 2 * i]); of = P.const(els[5 + 2 * i]); off = sx(of, 64) >> 8
+            out.append((b, off, bool(of & 1), bool(of & 2)))
+        return out
+    return []
+
+@model('__dynamic_cast')
+def m_dynamic_cast(s, av):
+    src = s.concretize(av[0], 'address'); dst_ti = s.concretize(av[2], 'address')
+    if src == 0: return 0
+    P = s.P
+    vptr = s.concretize(s.load(src, 8), 'vptr')
+    off_to_top = sx(s.concretize(s.load(vptr - 16, 8), 'offset-to-top'), 64); ti = s.concretize(s.load(vptr - 8, 8), 'typeinfo')
+    most = src + off_to_top
+    mname = P.addr2g.get(ti); dname = P.addr2g.get(dst_ti)
+    if mname is None or dname is None: raise BoundExceeded('dynamic_cast: type_info object not found')
+    found = set(); stack = [(mname, 0, True)]; steps = 0
+    while stack:
+        name, off, pub = stack.pop(); steps += 1
+        if steps > 2000: raise BoundExceeded('dynamic_cast: class hierarchy too large')
+        if name == dname:
+            if pub: found.add(off)
+            continue
+        for b, boff, virt, bpub in _ti_bases(P, name):
+            if b is None: continue
+            if virt: raise BoundExceeded('dynamic_cast through a virtual base is not modelled')
+            stack.append((b, off + boff, pub and bpub))
+    if len(found) != 1: return 0
+    return (most + found.pop()) & M64
